@@ -109,7 +109,8 @@ Section WithFloat.
   (* ---- reactions ---- *)
   Definition eq_equiv (e e' : side * side) : Prop :=
     side_order (fst e') = side_order (fst e) /\ side_order (snd e') = side_order (snd e) /\
-    forall l, coef_of l (fst e') = coef_of l (fst e) /\ coef_of l (snd e') = coef_of l (snd e).
+    (forall l, coef_of l (fst e') = coef_of l (fst e) /\ coef_of l (snd e') = coef_of l (snd e)) /\
+    (forall x, In x (map fst (fst e')) -> In x (map fst (fst e))) /\ (forall x, In x (map fst (snd e')) -> In x (map fst (snd e))).
   Definition reaction_equiv (r r' : reaction_obj F) : Prop :=
     ro_label F r = ro_label F r' /\ eq_equiv (ro_eq F r) (ro_eq F r') /\ envq_equiv (ro_kf F r) (ro_kf F r')
     /\ envq_equiv (ro_kr F r) (ro_kr F r') /\ ro_units F r = ro_units F r'.
@@ -123,7 +124,7 @@ Section WithFloat.
   Proof.
     intros (H1 & H2 & N1 & N2 & HL & Hkf & Hkr). destruct schema_ok_reaction as (Hwf & Hne & Hlen). unfold read_reaction, write_reaction, wr.
     rewrite (write_then_read jv schema_reaction _ Hwf) by (try (cbn [length]; rewrite Hlen; reflexivity); apply nonempty_of_forallb; exact Hne).
-    destruct (parse_print_eq_order (ro_eq F r) H1 H2 N1 N2) as (e' & Ee & O1 & O2 & Ce). rewrite Ee.
+    destruct (parse_print_eq_full (ro_eq F r) H1 H2 N1 N2) as (e' & Ee & O1 & O2 & Ce & I1 & I2). rewrite Ee.
     assert (L : read_label (Some (match ro_label F r with Some l => JStr l | None => JNull end)) = Ok (ro_label F r)).
     { destruct (ro_label F r) as [l|]; cbn [read_label]; [rewrite HL|]; reflexivity. }
     rewrite L. unfold read_units_field. change (write_usys (write_fields jv) (ro_units F r)) with (write_usys wr (ro_units F r)).
@@ -131,5 +132,69 @@ Section WithFloat.
     unfold write_usys in U |- *. rewrite U. rewrite O1, O2.
     destruct (read_envq_write _ _ Hkf) as (kf' & Ef & Qf). destruct (read_envq_write _ _ Hkr) as (kr' & Er & Qr).
     rewrite Ef, Er. eexists. split; [reflexivity|]. repeat split; try reflexivity; try assumption; apply Ce.
+  Qed.
+  (* ---- networks ---- *)
+  Definition network_equiv (n n' : network_obj F) : Prop :=
+    Forall2 species_equiv (no_species F n) (no_species F n') /\ Forall2 reaction_equiv (no_reactions F n) (no_reactions F n')
+    /\ no_envs F n = no_envs F n' /\ no_units F n = no_units F n'.
+  Definition wf_network (n : network_obj F) : Prop :=
+    (forall s, In s (no_species F n) -> wf_species s) /\ (forall r, In r (no_reactions F n) -> wf_reaction r) /\ network_valid F n = true.
+
+  Lemma read_list_map {A B} (w : A -> jv) (f : jv -> res B) (R : A -> B -> Prop) (l : list A) :
+    (forall a, In a l -> exists b, f (w a) = Ok b /\ R a b) -> exists bs, read_list f (map w l) = Ok bs /\ Forall2 R l bs.
+  Proof.
+    induction l as [|a l IH]; intros H; [exists []; split; [reflexivity|constructor]|].
+    destruct (H a (or_introl eq_refl)) as (b & Eb & Rb). destruct IH as (bs & Ebs & Rbs); [intros x Hx; apply H; right; exact Hx|].
+    exists (b :: bs). cbn [map read_list]. rewrite Eb, Ebs. split; [reflexivity|constructor; assumption].
+  Qed.
+
+  Lemma read_list_strs (es : list str) : read_list (fun x => match x with JStr e => Ok e | _ => Err end) (map JStr es) = Ok es.
+  Proof. induction es as [|e es IH]; [reflexivity|]. cbn [map read_list]. rewrite IH. reflexivity. Qed.
+
+  Lemma labels_same ss ss' : Forall2 species_equiv ss ss' -> map (so_label F) ss = map (so_label F) ss'.
+  Proof. induction 1 as [|s s' l l' H _ IH]; [reflexivity|]. cbn [map]. destruct H as (E & _). rewrite E, IH. reflexivity. Qed.
+
+  Lemma rlabels_same rs rs' : Forall2 reaction_equiv rs rs' -> reaction_labels F rs = reaction_labels F rs'.
+  Proof. induction 1 as [|r r' l l' H _ IH]; [reflexivity|]. unfold reaction_labels in *. cbn [flat_map]. destruct H as (E & _). rewrite E, IH. reflexivity. Qed.
+
+  Lemma mem_str_in k l : mem_str k l = true <-> In k l.
+  Proof.
+    unfold mem_str. rewrite existsb_exists. split.
+    - intros (x & Hx & E). apply str_eqb_eq in E. subst x. exact Hx.
+    - intros H. exists k. split; [exact H|apply str_eqb_eq; reflexivity].
+  Qed.
+
+  Lemma declared_same sl rs rs' : Forall2 reaction_equiv rs rs' ->
+    forallb (fun r => forallb (fun p : str * Z => mem_str (fst p) sl) (fst (ro_eq F r) ++ snd (ro_eq F r))) rs = true ->
+    forallb (fun r => forallb (fun p : str * Z => mem_str (fst p) sl) (fst (ro_eq F r) ++ snd (ro_eq F r))) rs' = true.
+  Proof.
+    induction 1 as [|r r' l l' H _ IH]; [reflexivity|]. cbn [forallb]. rewrite !andb_true_iff. intros [Hr Hl]. split; [|apply IH; exact Hl].
+    destruct H as (_ & (_ & _ & _ & I1 & I2) & _). rewrite forallb_forall in Hr |- *. intros p Hp. apply mem_str_in.
+    assert (Hin : In (fst p) (map fst (fst (ro_eq F r) ++ snd (ro_eq F r)))).
+    { rewrite map_app, in_app_iff. apply in_app_or in Hp. destruct Hp as [Hp|Hp]; [left; apply I1|right; apply I2]; apply in_map; exact Hp. }
+    apply in_map_iff in Hin. destruct Hin as (q & Eq & Hq). rewrite <- Eq. apply mem_str_in. apply (Hr q Hq).
+  Qed.
+
+  Theorem network_roundtrip parent (n : network_obj F) : wf_network n ->
+    exists n', read_network F parse_float zero parent (write_network F print_float wr n) = Ok n' /\ network_equiv n n'.
+  Proof.
+    intros (Hs & Hr & Hv). unfold read_network, write_network, wr.
+    assert (Hsc : wf_schema schema_network = true /\ forallb (fun syn : list str => match syn with [] => false | _ => true end) schema_network = true
+                  /\ length schema_network = 4%nat) by (vm_compute; repeat split).
+    destruct Hsc as (Hwf & Hne & Hlen).
+    rewrite (write_then_read jv schema_network _ Hwf) by (try (cbn [length]; rewrite Hlen; reflexivity); apply nonempty_of_forallb; exact Hne).
+    unfold read_units_field. change (write_usys (write_fields jv) (no_units F n)) with (write_usys wr (no_units F n)).
+    assert (U : read_usys (write_usys wr (no_units F n)) = Ok (no_units F n)) by apply usys_roundtrip.
+    unfold write_usys in U |- *. rewrite U.
+    destruct (read_list_map (write_species F print_float (write_fields jv)) (read_species F parse_float zero (no_units F n)) species_equiv (no_species F n))
+      as (ss & Ess & Rss); [intros s Hin; apply species_roundtrip; apply Hs; exact Hin|].
+    destruct (read_list_map (write_reaction F print_float (write_fields jv)) (read_reaction F parse_float zero (no_units F n)) reaction_equiv (no_reactions F n))
+      as (rs & Ers & Rrs); [intros r Hin; apply reaction_roundtrip; apply Hr; exact Hin|].
+    rewrite Ess, Ers, read_list_strs.
+    assert (V : network_valid F {| no_species := ss; no_reactions := rs; no_envs := no_envs F n; no_units := no_units F n |} = true).
+    { unfold network_valid in *. cbn [no_species no_reactions no_envs]. rewrite <- (labels_same _ _ Rss), <- (rlabels_same _ _ Rrs).
+      rewrite !andb_true_iff in Hv |- *. destruct Hv as ((((A & B) & C) & D) & E). repeat split; try assumption.
+      apply (declared_same _ _ _ Rrs). exact C. }
+    rewrite V. eexists. split; [reflexivity|]. repeat split; assumption.
   Qed.
 End WithFloat.
